@@ -17,6 +17,7 @@ Steps == Traces[tr].steps
 StepN == Steps[l + 1]
 FaultsOf(a) == [modes |-> [i \in 1..MaxN |-> IF i <= Len(a.modes) THEN a.modes[i] ELSE "ok"],
                 postFail |-> [i \in 1..MaxN |-> IF i <= Len(a.postFail) THEN a.postFail[i] ELSE FALSE],
+                rej |-> [i \in 1..MaxN |-> IF i <= Len(a.rej) THEN a.rej[i] ELSE FALSE],
                 failScale |-> a.failScale]
 SizeOf(a) == [series |-> a.series, total |-> a.total]
 Matches == WorldP = StepN.world
